@@ -121,10 +121,20 @@ def run(ctx):
         if origin in ("eml.xml", "subtree") and rng.random() < 0.5:
             t2 = copy.deepcopy(t)
             trees.append((origin, t2, ops + VT.mutate(rng, t2, n_ops=rng.randrange(1, 4), pool=pool)))
+    # two independent problems in document order (every single-node error kind, incl. the kinds whose collected record
+    # is a 3-tuple, followed by a children problem such as an allowed-but-misplaced child; and the other orders), and
+    # nodes with more than 256 children / attributes
+    pairs = VT.problem_pairs(rng, thorough)
+    ctx.extra["problem_pairs"] = len(pairs)
+    coq_pair_labels = set(lbl for lbl, _ in rng.sample(pairs, min(len(pairs), 600 if thorough else 160)))
+    for lbl, t in pairs:
+        trees.append(("pair", t, [lbl]))
+    for lbl, t in VT.wide_trees(rng):
+        trees.append(("wide", t, [lbl]))
     coq_cases, coq_wants, coq_meta = [], [], []
     max_depth = 0
     for origin, t, ops in trees:
-        root = RL.build_tree(t)
+        root = VT.build_tree(t)
         nodes = all_nodes(root)
         ids = {id(n) for n in nodes}
         ff, codes, problems = statement(lambda errs: validate.tree(root, errs), ids)
@@ -140,7 +150,7 @@ def run(ctx):
         for key, what in problems:
             ctx.fail("C04:" + key + (":lone-surrogate" if surrogate else ""), what,
                      {"kind": "impl-vs-statement", "call": "validate.tree", "tree": t, "edits": ops, "observed_ff": ff, "observed_codes": codes})
-        for n in rng.sample(nodes, min(3, len(nodes))):
+        for n in rng.sample(nodes, min(1 if origin == "pair" else 3, len(nodes))):
             ffn, codesn, problems_n = statement(lambda errs, n=n: validate.node(n, errs), ids)
             ctx.case()
             for key, what in problems_n:
@@ -150,14 +160,20 @@ def run(ctx):
                           "observed_ff": ffn, "observed_codes": codesn})
         Node.store.clear()
         # history: repeated validation of the same objects (second collecting call, non-empty list, in-place edits)
-        if origin != "eml.xml" or rng.random() < 0.3:
+        if (origin not in ("eml.xml", "pair", "wide") or rng.random() < (0.3 if origin == "eml.xml" else 0.04)):
             call = rng.choice(["tree", "tree", "node"])
             for step, what, details in VT.history_problems(rng, t, call=call, pool=pool, n_edits=1 if VT.size(t) > 40 else 2):
                 ctx.fail("C04:history:" + call + ":" + step.split("/")[-1], what, dict(details, edits=ops))
             ctx.case()
             ctx.count("history_sequences")
         ctx.sample({"origin": origin, "size": VT.size(t), "depth": d, "edits": ops, "ff": ff, "codes": codes[:6]}, limit=8)
-        if VT.size(t) <= 40 and len(coq_cases) < n_coq and (origin != "subtree" or ops):
+        if origin == "pair":
+            in_b = ops[0] in coq_pair_labels
+        elif origin == "wide":
+            in_b = VT.size(t) <= 258 and ops[0] in ("wide:metadata", "wide:attributes", "wide:keywordSet", "wide:max-exceeded")
+        else:
+            in_b = VT.size(t) <= 40 and len(coq_cases) < n_coq and (origin != "subtree" or ops)
+        if in_b:
             coq_cases.append(RL.coq_tcase(t))
             coq_wants.append(RL.coq_outcome((ff, codes)))
             coq_meta.append({"tree": t, "edits": ops, "observed": [ff, codes]})
@@ -174,7 +190,7 @@ def run(ctx):
         rj = rules[R.node_mappings[name]]
         attrs = [(k, (sp[1] if len(sp) > 1 else "v")) for k, sp in rj[0].items() if sp[0] is True]
         for content in pool:
-            n = RL.build_node(name, content, attrs, [])
+            n = VT.build_node(name, content, attrs, [])
             ffn, codesn, problems_n = statement(lambda errs, n=n: validate.node(n, errs), {id(n)})
             Node.store.clear()
             surrogate = content is not None and C02.has_surrogate(content)
@@ -230,11 +246,11 @@ def replay(ctx, data):
             ctx.fail(data.get("key", "C04:history"), what, details)
         return
     if "tree" in r and r.get("call") == "validate.tree":
-        root = RL.build_tree(r["tree"])
+        root = VT.build_tree(r["tree"])
         ids = {id(n) for n in all_nodes(root)}
         ff, codes, problems = statement(lambda errs: validate.tree(root, errs), ids)
     elif "tree" in r:
-        root = RL.build_tree(r["tree"])
+        root = VT.build_tree(r["tree"])
         nodes = all_nodes(root)
         ids = {id(n) for n in nodes}
         ff, codes, problems = "OK", [], []
@@ -244,7 +260,7 @@ def replay(ctx, data):
                 ff, codes, problems = f2, c2, p2
                 break
     else:
-        n = RL.build_node(r["node_name"], r["node_content"], [tuple(a) for a in r["node_attributes"]], r["node_children"])
+        n = VT.build_node(r["node_name"], r["node_content"], [tuple(a) for a in r["node_attributes"]], r["node_children"])
         ff, codes, problems = statement(lambda errs: validate.node(n, errs), {id(n)})
     Node.store.clear()
     print(f"observed ff={ff} codes={codes}; problems={problems}")
